@@ -53,8 +53,8 @@ func newentry(parent *Entry, args ...any) *Entry {
 		}
 	}
 
-	if l := len(todo); l > 0 {
-		s.attrs = make(Attrs, l)
+	if len(todo) > 0 {
+		// (appended, so that the attributes an option gave stay)
 		argsToAttrs(&s.attrs, todo...)
 	}
 
